@@ -13,9 +13,9 @@ import json, os, shutil, subprocess, sys, time
 
 pid, which = sys.argv[1], sys.argv[2]
 suite = "--no-suite" not in sys.argv
-src = {"A": "/tmp/seed_%s", "B": "/tmp/seed_%s", "C": "/tmp/seed2_%s", "D": "/tmp/seed2_%s", "E": "/tmp/seed3_%s", "F": "/tmp/seed3_%s"}[which] % pid + "/seed_out/" + which
+src = {"A": "/tmp/seed_%s", "B": "/tmp/seed_%s", "C": "/tmp/seed2_%s", "D": "/tmp/seed2_%s", "E": "/tmp/seed3_%s", "F": "/tmp/seed3_%s", "G": "/root/scratch/seed4_%s", "H": "/root/scratch/seed4_%s", "I": "/root/scratch/seed5_%s", "J": "/root/scratch/seed5_%s"}[which] % pid + "/seed_out/" + which
 sid = "%s-%s" % (pid, which)
-wt = "/tmp/vseed_%s" % sid
+wt = "/root/scratch/vseed_%s" % sid
 dst = "/verif/seeded/%s" % sid
 if not os.path.exists(src + "/patch.diff"):
     # re-verification of a kept seed: take patch and demo from /verif/seeded, keep its meta
@@ -46,15 +46,16 @@ try:
     res["demo_changed"] = {"rc": rc1, "tail": out1[-600:]}
     if suite:
         t = time.time()
-        xml = "/tmp/vseed_%s.xml" % sid
-        sh("%s /venv/bin/python -m pytest -q -p no:cacheprovider --timeout=900 --continue-on-collection-errors --junitxml=%s > /dev/null 2>&1" % (env, xml))
+        xml = "/root/scratch/vseed_%s.xml" % sid
+        # private /tmp: the suite uses fixed paths there and other runs may be going on
+        sh("unshare -m sh -c 'mount -t tmpfs tmpfs /tmp && %s /venv/bin/python -m pytest -q -p no:cacheprovider --timeout=900 --continue-on-collection-errors --junitxml=%s > /dev/null 2>&1'" % (env, xml))
         rc, out = sh("python3 /verif/tools/suite_vs_baseline.py %s" % xml)
         res["suite"] = {"rc": rc, "out": out[-800:], "secs": round(time.time() - t)}
         if rc != 0:
             # the suite shares fixed /tmp paths between concurrent runs: re-run only the tests that did not pass
             names = [l.split("NOT PASSING:")[1].split()[0] for l in out.splitlines() if "NOT PASSING:" in l]
             ids = " ".join("'%s'" % (n.rsplit("::", 1)[0].replace(".", "/") + ".py::" + n.rsplit("::", 1)[1]) for n in names[:20])
-            rc2, out2 = sh("%s /venv/bin/python -m pytest -q -p no:cacheprovider %s 2>&1 | tail -3" % (env, ids))
+            rc2, out2 = sh("unshare -m sh -c \"mount -t tmpfs tmpfs /tmp && %s /venv/bin/python -m pytest -q -p no:cacheprovider %s 2>&1 | tail -3\"" % (env, ids))
             res["suite"]["rerun_of_not_passing"] = out2[-400:]
             res["suite"]["rc_after_rerun"] = 0 if (" passed" in out2 and " failed" not in out2) else 1
         if os.path.exists(xml):
